@@ -559,4 +559,144 @@ theorem gen_deep : ∀ (p : T), GenDeep ρ ε p := by
         · simp only [hfl, Bool.false_eq_true, if_false] at hpre hrest
           exact deep_generic_gen ih hpre hm hfunc hnode (fun h => absurd h hN) hrest
 
+/-! ### the relation is inhabited: every tree generalises itself, and a wildcard generalises anything -/
+
+mutual
+/-- no node of the tree is an `__e__` placeholder -/
+def noExp (t : T) : Bool :=
+  match t with
+  | .mk k f fl kids => (match role (.mk k f fl kids) with | .expPh _ => false | _ => true) && noExpL kids
+def noExpL (ts : List T) : Bool :=
+  match ts with
+  | [] => true
+  | t :: rest => noExp t && noExpL rest
+end
+
+theorem fldsGen_refl (skip : Option String) : ∀ l : List Fld, fldsGen skip l l := by
+  intro l
+  induction l with
+  | nil => trivial
+  | cons a as ih => exact ⟨⟨rfl, Or.inr (Or.inr (Or.inl rfl))⟩, ih⟩
+
+theorem nodeGen_refl (t : T) : nodeGen (fun x => x) t t := by
+  refine ⟨rfl, fldsGen_refl _ _, ?_⟩
+  simp only [identGen]
+  cases hi : identField t.kind with
+  | none => trivial
+  | some f =>
+    simp only
+    cases hc : nameClass (t.strAttr f) <;> simp
+
+/-- the program node may have one more child in front -/
+theorem genKids_skip {ρ : String → String} {ε : String → Option Path} {ig : List String} {pp sp : Path} {a : T} :
+    ∀ (ps : List T) (i j : Nat) (ts : List T), genKids ρ ε ig pp i ps sp (j + 1) ts →
+      genKids ρ ε ig pp i ps sp j (a :: ts) := by
+  intro ps
+  induction ps with
+  | nil => intro i j ts _; rw [genKids]; trivial
+  | cons pc rest ih =>
+    intro i j ts h
+    rw [genKids] at h ⊢
+    by_cases hign : ig.contains pc.field = true
+    · simp only [hign, if_true] at h ⊢
+      exact ih (i + 1) j ts h
+    · simp only [hign, Bool.false_eq_true, if_false] at h ⊢
+      obtain ⟨d, sj, h1, h2, h3, h4⟩ := h
+      refine ⟨d + 1, sj, by simpa using h1, h2, ?_, ?_⟩
+      · have e : j + (d + 1) = j + 1 + d := by omega
+        rw [e]; exact h3
+      · have e : j + (d + 1) + 1 = j + 1 + d + 1 := by omega
+        rw [e]; simpa using h4
+
+theorem genKids_refl {ε : String → Option Path} (ig : List String) (pp sp : Path) (kids : List T)
+    (hIH : ∀ c ∈ kids, ∀ pp sp, genAt (fun x => x) ε pp c sp c) :
+    ∀ i j, genKids (fun x => x) ε ig pp i kids sp j kids := by
+  induction kids with
+  | nil => intro i j; rw [genKids]; trivial
+  | cons c rest ih =>
+    intro i j
+    rw [genKids]
+    by_cases hign : ig.contains c.field = true
+    · simp only [hign, if_true]
+      -- the ignored child is skipped on the pattern side only; the rest embeds after one more student child
+      have := ih (fun c hc => hIH c (List.mem_cons_of_mem _ hc)) (i + 1) (j + 1)
+      exact genKids_skip _ _ _ _ this
+    · simp only [hign, Bool.false_eq_true, if_false]
+      exact ⟨0, c, rfl, rfl, hIH c List.mem_cons_self _ _, by
+        simpa using ih (fun c hc => hIH c (List.mem_cons_of_mem _ hc)) (i + 1) (j + 0 + 1)⟩
+
+/-- **non-vacuity of `genAt`**: a tree without `__e__` placeholders generalises itself (no step applied), with
+every identifier standing for itself -/
+theorem genAt_refl {ε : String → Option Path} : ∀ (t : T), noExp t = true → binOp3 t = true →
+    ∀ pp sp, genAt (fun x => x) ε pp t sp t := by
+  intro t
+  induction t using T.induct' with
+  | h k f fl kids ih =>
+    intro hne hb pp sp
+    rw [noExp] at hne
+    simp only [Bool.and_eq_true] at hne
+    obtain ⟨hbk, hb3⟩ := binOp3_kids hb
+    have hneL : ∀ c ∈ kids, noExp c = true := by
+      have : ∀ (l : List T), noExpL l = true → ∀ c ∈ l, noExp c = true := by
+        intro l
+        induction l with
+        | nil => intro _ c hc; cases hc
+        | cons a as ihl =>
+          intro h c hc
+          rw [noExpL] at h
+          simp only [Bool.and_eq_true] at h
+          cases hc with
+          | head => exact h.1
+          | tail _ hc' => exact ihl h.2 c hc'
+      exact this kids hne.2
+    have hIH : ∀ c ∈ kids, ∀ pp sp, genAt (fun x => x) ε pp c sp c :=
+      fun c hc => ih c hc (hneL c hc) (hbk c hc)
+    rw [genAt.eq_def]
+    simp only
+    cases hr : role (T.mk k f fl kids) with
+    | expPh n => rw [hr] at hne; simp at hne
+    | wildcard =>
+      simp only
+      split
+      · trivial
+      · refine ⟨nodeGen_refl _, ?_⟩
+        split
+        · rename_i hfl
+          have h3 := hb3 (by simp only [flexOp, Bool.and_eq_true, decide_eq_true_eq] at hfl; exact hfl.1)
+          match kids, hIH, h3 with
+          | [l, op, rr], hIH, _ =>
+            rw [genFlex]
+            exact ⟨l, op, rr, rfl, ⟨rfl, rfl, fldsGen_refl _ _⟩, rfl, rfl, hIH l (by simp) _ _, hIH rr (by simp) _ _⟩
+        · exact genKids_refl _ pp sp kids hIH 0 0
+    | wrapper =>
+      simp only [reduceCtorEq, and_false, if_false]
+      refine ⟨nodeGen_refl _, ?_⟩
+      split
+      · rename_i hfl
+        have h3 := hb3 (by simp only [flexOp, Bool.and_eq_true, decide_eq_true_eq] at hfl; exact hfl.1)
+        match kids, hIH, h3 with
+        | [l, op, rr], hIH, _ =>
+          rw [genFlex]
+          exact ⟨l, op, rr, rfl, ⟨rfl, rfl, fldsGen_refl _ _⟩, rfl, rfl, hIH l (by simp) _ _, hIH rr (by simp) _ _⟩
+      · exact genKids_refl _ pp sp kids hIH 0 0
+    | concrete =>
+      simp only [reduceCtorEq, and_false, if_false]
+      refine ⟨nodeGen_refl _, ?_⟩
+      split
+      · rename_i hfl
+        have h3 := hb3 (by simp only [flexOp, Bool.and_eq_true, decide_eq_true_eq] at hfl; exact hfl.1)
+        match kids, hIH, h3 with
+        | [l, op, rr], hIH, _ =>
+          rw [genFlex]
+          exact ⟨l, op, rr, rfl, ⟨rfl, rfl, fldsGen_refl _ _⟩, rfl, rfl, hIH l (by simp) _ _, hIH rr (by simp) _ _⟩
+      · exact genKids_refl _ pp sp kids hIH 0 0
+
+/-- **non-vacuity, a step**: a `___` Name generalises any node -/
+theorem genAt_wildcard {ρ : String → String} {ε : String → Option Path} (f : String) (fl : List Fld) (kids : List T)
+    (h : nameClass (strOfFlds "id" fl) = .wild) (pp sp : Path) (t : T) :
+    genAt ρ ε pp (.mk "Name" f fl kids) sp t := by
+  have hr : role (T.mk "Name" f fl kids) = .wildcard := role_of_name_wild rfl h
+  rw [genAt.eq_def]
+  simp [hr]
+
 end Pedal.Cait
